@@ -338,6 +338,8 @@ def on_inherit(p, r, exc, acc):
             acc.candidate(kind="cached-section-in-inheritance-chain", input=dict(inherit_ops=r["ops"]),
                           detail="after %s: rendered %r with executions %r; documented %r with %r" % (op, out, counts, wout, wcounts))
             break
+    else:
+        acc.good("cached-section-in-inheritance-chain", dict(inherit_ops=r["ops"]))
     acc.sample(dict(ops=r["ops"]))
 
 
@@ -382,6 +384,8 @@ def on_key(p, r, exc, acc):
     acc.tags["ran"] += 1
     acc.vcs += 1
     want = key_expected(r["spelling"], r["pairs"])
+    if (list(r["got"][0]), list(r["got"][1])) == (want[0], want[1]):
+        acc.good("cache-key-value", dict(cache_key=r["spelling"], values=r["pairs"]))
     if (list(r["got"][0]), list(r["got"][1])) != (want[0], want[1]):
         acc.candidate(kind="cache-key-value", input=dict(cache_key=r["spelling"], values=r["pairs"]),
                       detail="outputs %r with backend keys %r; documented %r with keys %r" % (r["got"][0], r["got"][1], want[0], want[1]))
@@ -498,9 +502,11 @@ def run(check, tier):
     for j in jobs:
         driver.register(j[0], j[1], j[2])
     cands = []
+    goods = []
     for name, _h, _o, title, bounds, req in jobs:
         st, acc = driver.explore(name, time_limit=1200)
         check.section(title, st, acc, bounds, tags_required=req)
         cands.extend(acc.candidates)
-    check.confirm(cands, make_replay, classify, max_confirm=16)
+        goods.extend(acc.goods)
+    check.confirm(cands, make_replay, classify, max_confirm=16, goods=goods)
     driver.close_pool()
